@@ -382,6 +382,12 @@ RunResult run_plan(const Plan &p, Stats *st, std::vector<uint64_t> *nt_pairs) {
     simrt::heap_begin_run(simrt::HEAP_IMMEDIATE, 0xA5, 0xDD);
     {
     std::string fmt = build_format(p);
+    // where the format string lives: half of the calls pass it in one long-lived array that every such call re-uses (the `char line[...]` a
+    // program fills and hands on), the others in a string of their own.  Different text at the same address, call after call - and the address
+    // does not depend on what else the process has allocated, so a history that needs it replays.
+    static char g_format_line[16384];
+    const char *fmt_text = fmt.c_str();
+    if (((p.seed >> 7) & 1) && fmt.size() < sizeof g_format_line) { std::memcpy(g_format_line, fmt.c_str(), fmt.size() + 1); fmt_text = g_format_line; }
     std::vector<AnyArg> args;
     for (size_t i = 0; i < p.args.size() && i < 4; i++) args.push_back(make_arg(p, p.args[i]));
     size_t arg_bytes = 0; for (auto &a : args) arg_bytes += a.s8.size() * 4 + 64;
@@ -393,14 +399,14 @@ RunResult run_plan(const Plan &p, Stats *st, std::vector<uint64_t> *nt_pairs) {
 
     // reference: ST::format
     std::string R; bool accepted = false;
-    Ex rex = guarded(budget, st, [&] { with_args(args, [&](const auto &...a) { ST::string r = ST::format(fmt.c_str(), a...); R.assign(r.c_str(), r.size()); }); });
+    Ex rex = guarded(budget, st, [&] { with_args(args, [&](const auto &...a) { ST::string r = ST::format(fmt_text, a...); R.assign(r.c_str(), r.size()); }); });
     accepted = rex == X_NONE;
     if (!accepted && st) st->rejected_by_format++;
     if (rex == X_BADALLOC || rex == X_OTHER || rex == X_SIMREAD || rex == X_IOSFAIL) set_viol(V, "unexpected_exception", "ST::format", std::string(EXN[rex]) + " from ST::format");
     Scalars Rsc; bool Rwf = accepted && dec8_strict(R, Rsc);
     // the chunk sequence the driver emits for this call (public format_writer extension point)
     std::vector<Chunk> chunks;
-    Ex recex = guarded(budget, st, [&] { RecWriter w(fmt.c_str()); with_args(args, [&](const auto &...a) { ST::apply_format(w, a...); }); chunks.swap(w.chunks); });
+    Ex recex = guarded(budget, st, [&] { RecWriter w(fmt_text); with_args(args, [&](const auto &...a) { ST::apply_format(w, a...); }); chunks.swap(w.chunks); });
     // the bytes the driver emitted, whether or not they are UTF-8 (format_latin_1 takes every byte for a Latin-1 character: it has a defined result where ST::format rejects the call)
     std::string raw; const bool raw_ok = recex == X_NONE; if (raw_ok) for (const Chunk &ch : chunks) raw += ch.bytes;
     bool chunk_not_self_contained = false, has_padding = false, multi_unit = false;
@@ -443,7 +449,7 @@ RunResult run_plan(const Plan &p, Stats *st, std::vector<uint64_t> *nt_pairs) {
                 fflush(f); ck.data.clear(); ck.calls = 0;
                 if (st && earlier_threw) st->probe[PC_FILE_EARLIER_CALL_THREW]++;
             }
-            Ex ex = guarded(budget, st, [&] { with_args(args, [&](const auto &...a) { if (to_stdout) ST::printf(fmt.c_str(), a...); else ST::printf(f, fmt.c_str(), a...); }); calls_inside = ck.calls; });
+            Ex ex = guarded(budget, st, [&] { with_args(args, [&](const auto &...a) { if (to_stdout) ST::printf(fmt_text, a...); else ST::printf(f, fmt_text, a...); }); calls_inside = ck.calls; });
             if (to_stdout) stdout = saved_stdout;
             if (earlier_threw || ex != X_NONE || (k.a >> 7) % 16 == 0) {
                 // whoever uses the FILE* next may be another thread: the stream must not be left locked by this one
@@ -463,7 +469,7 @@ RunResult run_plan(const Plan &p, Stats *st, std::vector<uint64_t> *nt_pairs) {
         }
         case SK_LATIN1: {
             std::string got;
-            Ex ex = guarded(budget, st, [&] { with_args(args, [&](const auto &...a) { ST::string r = ST::format_latin_1(fmt.c_str(), a...); got.assign(r.c_str(), r.size()); }); });
+            Ex ex = guarded(budget, st, [&] { with_args(args, [&](const auto &...a) { ST::string r = ST::format_latin_1(fmt_text, a...); got.assign(r.c_str(), r.size()); }); });
             if (!accepted && !(rex == X_UNICODE && raw_ok)) break;
             const std::string want = latin1_ref(accepted ? R : raw);
             if (ex != X_NONE) { set_viol(V, "latin1_differs", site, std::string("ST::format_latin_1 threw ") + EXN[ex]); break; }
@@ -474,8 +480,8 @@ RunResult run_plan(const Plan &p, Stats *st, std::vector<uint64_t> *nt_pairs) {
             std::string got; const unsigned which = k.a % 4;
             Ex ex = guarded(budget, st, [&] { with_args(args, [&](const auto &...a) {
                 using namespace ST::literals;
-                ST::string r = which == 0 ? ST::format(ST::check_validity, fmt.c_str(), a...) : which == 1 ? ST::format(ST::substitute_invalid, fmt.c_str(), a...)
-                             : which == 2 ? ST::format(ST::assume_valid, fmt.c_str(), a...) : operator"" _stfmt(fmt.c_str(), fmt.size())(a...);
+                ST::string r = which == 0 ? ST::format(ST::check_validity, fmt_text, a...) : which == 1 ? ST::format(ST::substitute_invalid, fmt_text, a...)
+                             : which == 2 ? ST::format(ST::assume_valid, fmt_text, a...) : operator"" _stfmt(fmt_text, fmt.size())(a...);
                 got.assign(r.c_str(), r.size()); }); });
             if (!accepted || !Rwf) break;       // (for output that is not strictly well-formed the modes legitimately differ)
             if (ex != X_NONE) { set_viol(V, "sink_bytes_differ", site, std::string("this spelling of the call threw ") + EXN[ex] + " for a call ST::format accepts"); break; }
@@ -494,7 +500,7 @@ RunResult run_plan(const Plan &p, Stats *st, std::vector<uint64_t> *nt_pairs) {
                 // a unit-buffered stream (std::cerr is one) hands everything to its device before an output operation returns
                 const bool unitbuf = ((k.b >> 5) & 1) != 0; if (unitbuf) os.setf(std::ios_base::unitbuf);
                 unsigned ovf_inside = 0;
-                Ex ex = guarded(budget, st, [&] { with_args(args, [&](const auto &...a) { ST::writef(os, fmt.c_str(), a...); }); ovf_inside = rb.ovf; });
+                Ex ex = guarded(budget, st, [&] { with_args(args, [&](const auto &...a) { ST::writef(os, fmt_text, a...); }); ovf_inside = rb.ovf; });
                 const size_t held_back = rb.pending();
                 // (not while another exception is propagating: the standard's own sentry skips that flush when uncaught_exception() is true)
                 if (unitbuf && k.ctx != 1 && accepted && ex == X_NONE && !rb.failed && held_back) { set_viol(V, "sink_bytes_differ", site, "unit-buffered stream: " + std::to_string(held_back) + " unit(s) of the output are still in the put area when writef returns"); return; }
